@@ -281,7 +281,7 @@ func writeEvidence(prop, tier string, seed uint64, start time.Time, st *Stats, r
 		},
 		"reach_probes":     st.Counts.Map(),
 		"process_counts":   st.Execs.Map(),
-		"components":       common.Components(),
+		"components":       common.Components("A"),
 		"seam_sites":       len(b.Sites),
 	}
 	if note != "" {
